@@ -176,6 +176,12 @@ def verify(run, relpath, contract, fn_qual=None, contracts=None, fingerprint=Non
                     status, backend, model = "violated", f"z3-5.1(api) finite-universe B={B}", sol.model()
                     ob, cex_exe = cand, bex["exe"]
                     break
+        if status == "undecided":
+            status, backend, dt2 = E.solve_second(ob, timeout_ms)
+            dt += dt2
+            if status == "violated":
+                status = "undecided"   # sat without a usable model from an external solver on a quantified query: not trusted
+                backend += " (sat, no model)"
         if status == "discharged":
             nd += 1
             run.oblig(oid, label, "A(pyvc)", "discharged", backend, dt)
